@@ -4,6 +4,9 @@ spec/C01/Mbi.tla      : R-spec of the FORMAT - the image as a sequence of region
                         read from the device database at run time), the four ROM-owned words as a record, the reader's cuts, the clauses
 spec/C01/MbiMC.tla    : MC + GEN - TLC checks the region algebra for every composition x abstract input class and prints every case
 spec/C01/MbiTrace.tla : TV - TLC decides every observation of the real builder / parser
+spec/C01/MbiRange.tla : MC + GEN of the clause Carried (Mbi.tla "what a header field can hold"): per composition x numeric header field x value class
+                        of a request (0, 1, top of the field, top + 1, too wide, beyond 32 bits); asked of the real builder by c01_range.py through both
+                        entry points, decided by the same MbiTrace (Request / Outcome): refused or carried, never accepted-and-altered
 spec/C01/MbiHist.tla  : MC + GEN of the history layer (Mbi.tla "the object's history"): all short action sequences on ONE object;
                         replayed by c01_hist.py, decided by the same MbiTrace (action events move the settings)
 
@@ -21,6 +24,7 @@ from lib.par import pmap
 from lib.verdict import Verdict
 
 import c01_hist as H  # noqa: E402
+import c01_range as RG  # noqa: E402
 
 PROP = "C01"
 MARKER = 0x4C54424C
@@ -414,13 +418,15 @@ def canary():
             bad.append(t)
             expect.add((t["id"], hit[0] + 1, evn))
     nh = canary_histories(good, bad, expect)
+    nr, nrc = RG.canary(good, bad, expect)
     rej = decide(good + bad)
     # a history judged against settings it no longer has is wrong in several events: only the first one (the length word) is demanded exactly
     got = {(r[0], r[1], r[3]) for r in rej if not (r[0].endswith("-nochange") and (r[0], r[1], r[3]) not in expect)}
-    if got != expect or len(expect) < 30 + 3 * nh:
+    if got != expect or len(expect) < 30 + 3 * nh + nrc:
         raise Machinery(f"canary failed: unexpected {sorted(got - expect)[:6]}, missed {sorted(expect - got)[:6]} ({len(expect)} corruptions)")
-    return (f"{len(good) - nh} recorded traces of 3 real images and {nh} recorded histories of one object accepted, {len(expect)} single-number corruptions rejected "
-            f"at the corrupted event (among them: the length word of the export BEFORE the change kept in the export after it)")
+    return (f"{len(good) - nh - nr} recorded traces of 3 real images, {nh} recorded histories of one object and {nr} recorded requests at / above the top of a header "
+            f"field accepted, {len(expect)} single-number corruptions rejected at the corrupted event (among them: the length word of the export BEFORE the "
+            f"change kept in the export after it; a refused request turned into 'built with the low bits of the number')")
 
 
 def canary_histories(good, bad, expect):
@@ -485,8 +491,10 @@ def run(tier):
                                deadlock=False, timeout=1500, coverage=False),
         "memo": lambda: tlc.run("C01", "MbiHist", "MbiHist.cfg", env=dict(base_env, H_MEMO="1", H_DEPTH="2", H_DEPTH_P="0"), workers=1, heap="2g",
                                 deadlock=False, timeout=600),
+        "range": lambda: tlc.mc("C01", "MbiRange", "MbiRange.cfg", env=dict(base_env, RANGE_CUT="0"), workers=2, heap="2g", deadlock=False, timeout=600, coverage=False),
+        "rangecut": lambda: tlc.run("C01", "MbiRange", "MbiRange.cfg", env=dict(base_env, RANGE_CUT="1"), workers=1, heap="2g", deadlock=False, timeout=600),
     })
-    g, gh, gm = tl["mc"], tl["hist"], tl["memo"]
+    g, gh, gm, gr, gc = tl["mc"], tl["hist"], tl["memo"], tl["range"], tl["rangecut"]
     # non-vacuity: every case state has exactly three successors (DoExport, DoParse, DoReExport fired for each) - checked below by the state count
     v.add_mc(g)
     cases = sorted(g.json_prints(), key=lambda c: json.dumps(c, sort_keys=True))   # TLC prints in the order its workers finish: fixed order before any seeded choice
@@ -507,6 +515,24 @@ def run(tier):
     v.extra["design_variant_refuted"] = ("MbiHist with H_MEMO=1 (an object that keeps the total length of its first export): TLC reports ExportNowDescribes "
                                          f"violated after {gm.distinct} states - the histories generated reach the class")
     say(f"[C01] history layer: {len(hists)} histories of one object enumerated and checked by TLC ({gh.distinct} states), design variant refuted ({v.timer.s()}s)")
+    # range layer: every offered field of every modelled composition in every value class; the builder that cuts to the field width must be refuted
+    v.add_mc(gr)
+    rcases = sorted(gr.json_prints(), key=lambda c: json.dumps(c, sort_keys=True))
+    offered = {(c["id"], f) for c in comps if c["id"] in modelled for f, mx in (("imgVer", ("ImageVersion",)), ("sub", ("ImageSubType",)), ("load", ("LoadAddress", "LoadAddressOptional")),
+                                                                                 ("fwVer", ("ManifestCrc", "ManifestDigest"))) if any(m in c["mixins"] for m in mx)}
+    rclasses = {}
+    for c in rcases:
+        rclasses.setdefault((c["c"], c["field"]), set()).add(c["class"])
+    if set(rclasses) != offered or any(not {"zero", "one", "top", "top1", "beyond"} <= s for s in rclasses.values()) or \
+            any(not {"alias", "word"} <= s for (_, f), s in rclasses.items() if f in ("imgVer", "sub")):
+        raise Machinery(f"range GEN: {len(rcases)} cases for {len(rclasses)} (composition, field) pairs, database offers {len(offered)}; "
+                        f"missing {sorted(offered - set(rclasses))[:4]}")
+    if gc.violated != "CarriedHolds":
+        raise Machinery(f"the design variant 'a number too wide for its header field is cut to the width and emitted' was not refuted by TLC ({gc.violated}, {gc.distinct} states)")
+    v.extra["design_variant_refuted_range"] = ("MbiRange with RANGE_CUT=1 (a builder that keeps the low bits of a number its header field cannot hold): TLC reports "
+                                               f"CarriedHolds violated after {gc.distinct} states - the requests generated reach the class")
+    say(f"[C01] range layer: {len(rcases)} requests for {len(rclasses)} (composition, numeric header field) pairs enumerated and checked by TLC ({gr.distinct} states), "
+        f"cutting builder refuted ({v.timer.s()}s)")
     v.extra["canary"] = canary()
 
     # ---- replay on the real builder
@@ -559,8 +585,26 @@ def run(tier):
     v.extra["histories"] = {"enumerated": len(hists), "replayed": len(hdone), "refused_examples": sorted({x["refused"][:120] for x in hrefused})[:6],
                             "without_member": hskipped}
 
+    # ---- requests at / above the top of a header field, asked of the real builder through both entry points
+    rjobs = RG.plan(rcases, comps, mem, tier, twin_of, sub_labels)
+    rres = pmap(RG.observe, rjobs, chunksize=8)
+    v.count(len(rres))
+    fitting = [x for x in rres if x["meta"]["class"] in ("zero", "one", "top")]
+    wide_routes = {(x["meta"]["field"], x["meta"]["route"]) for x in rres if x["meta"]["class"] not in ("zero", "one", "top")}
+    say(f"[C01] {len(rres)} requests asked of the real builder: {sum(1 for x in rres if x['built'])} built, {sum(1 for x in rres if not x['built'])} refused ({v.timer.s()}s)")
+    if sum(1 for x in fitting if not x["built"]) > 0.1 * len(fitting) or wide_routes != {(f, rt) for f, rts in RG.ROUTES.items() for rt in rts}:
+        raise Machinery(f"range lane: {sum(1 for x in fitting if not x['built'])} of {len(fitting)} requests that fit their field were refused "
+                        f"({sorted({x['t']['ev'][2]['exc'][:80] for x in fitting if not x['built']})[:4]}); routes reached with too wide numbers: {sorted(wide_routes)}")
+    v.extra["range"] = {"requests": len(rres), "built": sum(1 for x in rres if x["built"]),
+                        "refusals": sorted({x["t"]["ev"][2]["exc"][:100] for x in rres if not x["built"]})[:6]}
+
     # ---- TV
     traces, metas = [], {}
+    for k, x in enumerate(rres):
+        t = dict(x["t"], id=f"R{k}")
+        traces.append(t)
+        metas[t["id"]] = x["meta"]
+        v.nontrivial(json.dumps([x["meta"]["c"], x["meta"]["field"], x["meta"]["w"], x["meta"]["route"]], sort_keys=True))
     for k, x in enumerate(hdone):
         t = dict(x["t"], id=f"H{k}")
         traces.append(t)
@@ -584,6 +628,13 @@ def run(tier):
                 raise Machinery(f"case outside the algebra reached trace validation: {json.dumps(meta)[:600]}")
             nrej += 1
             ev = t["ev"][at - 1]
+            if tid.startswith("R"):
+                v.violation(RG.key_of(t, at - 1, meta),
+                            f"{meta['member']['family']}:{meta['member']['revision']} {meta['member']['target']}/{meta['member']['auth']} via {meta['route']}: "
+                            f"{meta['field']} = {RG.unwide(meta['w']):#x} requested (class {meta['class']}, field of {RG.WIDTH[meta['field']]} bits): {json.dumps(ev)[:300]} rejected "
+                            f"- a number the field cannot hold must be refused, a number it holds must come out of the bytes and of the parser unchanged",
+                            {"meta": meta, "trace": t})
+                continue
             if tid.startswith("H"):
                 v.violation(H.key_of(t, at - 1, meta),
                             f"{meta['member']['family']}:{meta['member']['revision']} {meta['member']['target']}/{meta['member']['auth']} object ({meta['lane']}, via {meta['route']}), "
@@ -608,11 +659,20 @@ def run(tier):
                      "Histories = every state of MbiHist (all sequences of up to 2 (thorough: 3) actions Export / SetApp / SetTz / ClearTz / SetKs / ClearKs / Reconfigure / Parse "
                      "per composition, from a small and a full start, on a built and on a parsed object); quick: per composition every action once after an export "
                      "(Export, action, Export) on a built object, every third one on a parsed object, plus a seeded sample of the others; thorough: all pairs and a seeded "
-                     "sample of the triples; every export of a history is read like a single image AND compared with the export of a fresh object holding the settings of that moment")
+                     "sample of the triples; every export of a history is read like a single image AND compared with the export of a fresh object holding the settings of that moment. "
+                     "Requests = every state of MbiRange (per composition x numeric header field it has [image version 16 bits, sub-type 2 bits, load address / firmware version "
+                     "32 bits] x value class [0, 1, top, top + 1, too wide but a 32-bit number, 0xFFFFFFFF, beyond 32 bits] x example values, plus one (thorough: six) seeded member "
+                     "of each many-valued class), every one in BOTH tiers through load_from_config AND the class constructor (sub-type: constructor only, the configuration names "
+                     "sub-types by label); outcome = refused, or the field read from the bytes and the parsed number")
     v.cov["exhaustive"] = False
-    v.cov["checker_cmd"] = "TLC MbiMC (region algebra, case space) ; TLC MbiHist (histories of one object, design variant refuted) ; TLC MbiTrace (decides each observation)"
+    v.cov["checker_cmd"] = ("TLC MbiMC (region algebra, case space) ; TLC MbiHist (histories of one object, design variant refuted) ; "
+                            "TLC MbiRange (requests per header field, cutting builder refuted) ; TLC MbiTrace (decides each observation)")
     v.cov["trusted_base"] = ["struct", "bit-serial CRC-32/MPEG-2 table built in lib/mbi_build.py", "cryptography (key size of PEM files only)", "TLC"]
     v.assumptions += [
+        "range lane: a refusal is ANY exception between the option set and the bytes (on this tree too wide numbers are refused by struct.error inside update_ivt / the manifest "
+        "export, not by an SPSDKError - the property only speaks about option sets the builder accepts); negative numbers are not requested; the TrustZone type is an "
+        "enumeration (TrustZoneType) and the HW-key / key-store / relocation bits are booleans or derived - no number can be requested for them through the public API; "
+        "sub-types 2 and 3 fit the 2-bit field and are only asked to come back unchanged from the bytes and the parser (they have no label: create_config of them is not asserted)",
         "compositions without a vector-table header (DSC MC56F8xxx / MWCT20xx: BcaTable+Fcf; MCXC: Bca+Fcf) carry no image-type word and are not modelled: "
         + "; ".join(not_modelled),
         "payloads of 0x38..0x3F bytes in HMAC (load-to-RAM signed / encrypted) compositions are a format corner (the HMAC at offset 64 falls behind the payload) and are not asserted",
@@ -641,6 +701,18 @@ def replay(path):
     write_tables(comps)
     member = next(m for m in mem if all(m[k] == meta["member"][k] for k in ("family", "revision", "target", "auth", "cls")))
     member = dict(member, sub_labels=sub_labels(member), twin=twin_of(member, mem))
+    if "rid" in meta:  # a request at / above the top of a header field
+        res = RG.observe({"case": {k: meta[k] for k in ("c", "x", "field", "class", "w")}, "member": member, "rid": meta["rid"], "route": meta["route"]})
+        t = dict(res["t"], id="R0")
+        rej = decide([t])
+        say(json.dumps(t["ev"])[:2000])
+        for tid, at, length, evname in rej:
+            say(f"rejected: event #{at} ({evname}); key {RG.key_of(t, at - 1, res['meta'])}")
+        if rej:
+            say(f"VIOLATION property=C01 replay={path}")
+            return 1
+        say("replay: accepted by the spec")
+        return 0
     if "hid" in meta:  # a history of one object
         res = H.observe({"c": meta["c"], "s": meta["s"], "lane": meta["lane"], "h": meta["h"], "menu": meta["menu"], "member": member, "hid": meta["hid"],
                          "route": meta["route"], "full": meta.get("full", False)})
